@@ -249,7 +249,13 @@ func (x *Exec) wf(st *State, t types.Type, v Val) *Term {
 	case VString:
 		return st.stringWF(u)
 	case VRef:
-		return x.allocFact(st, u.T)
+		if x.noAllocWF {
+			return True
+		}
+		// an object that is an element of a struct slice lives in an allocated region
+		I := e.ar.I()
+		rg, ix := App("elemref_reg", I, u.T), App("elemref_idx", I, u.T)
+		return And(st.isAlloc(u.T), Implies(Eq(u.T, e.elemRef(rg, ix)), st.isAlloc(rg)))
 	case VPtr:
 		if u.Reg != nil {
 			return And(x.allocFact(st, u.Reg), e.ar.Cmp(token.LEQ, tInt, e.ar.IConst(0), u.Idx), e.ar.Cmp(token.LEQ, tInt, u.Idx, e.rsize(u.Reg)),
